@@ -18,7 +18,7 @@ ASSUMPTIONS = [
 
 RX = {"gpp_c": 3, "gpp_h": 2, "lc_h": 3, "ksp_h": 2, "ppg_h": 3, "ppg_c": 2, "j3pi_h": 2,
       "d3pi_h": 3, "psi4_h": 2, "lc_c": 1, "gpp1_h": 1}
-DYN = ["probeA", "probeB", "probeC", "probeA", "probeB", "bw", "bw_ff", "bw_analytic", "non_dynamic"]
+DYN = ["probeA", "probeB", "probeC", "probeA", "probeB", "bw", "bw_ff", "bw_analytic", "bw_ffonly", "bw_edw", "non_dynamic"]
 
 
 def generate(seed_: int, run: int, reactions: list[str]) -> dict:
